@@ -128,6 +128,10 @@ pub broadcast group group_vx_axioms {
 pub assume_specification[ String::len ](s: &String) -> (r: usize)
     ensures r == vstd::utf8::encode_utf8(s@).len();
 
+/// `Option::is_some_and`
+pub assume_specification<T, F: FnOnce(T) -> bool>[ Option::<T>::is_some_and ](o: Option<T>, f: F) -> (r: bool)
+    requires o.is_some() ==> call_requires(f, (o.unwrap(),)),
+    ensures o.is_none() ==> !r, o.is_some() ==> call_ensures(f, (o.unwrap(),), r);
 /// `String::truncate(n)`: no effect beyond the end; panics unless `n` is a char boundary
 pub assume_specification[ String::truncate ](s: &mut String, n: usize)
     requires n as int > vstd::utf8::encode_utf8(old(s)@).len() || exists|k: int| 0 <= k <= old(s)@.len() && #[trigger] boff(old(s)@, k) == n as int,
@@ -403,6 +407,9 @@ pub trait VxStr {
     fn vx_to_lowercase(&self) -> (r: String) ensures r@ == lower_spec(self.sv());
     fn vx_lines<'a>(&'a self) -> (r: Vec<&'a str>)
         ensures r@.len() == lines_spec(self.sv()).len(), forall|i: int| 0 <= i < r@.len() ==> (#[trigger] r@[i])@ == lines_spec(self.sv())[i];
+    /// `s.lines().map(|l| l.to_string()).collect()`
+    fn vx_lines_owned(&self) -> (r: Vec<String>)
+        ensures r@.len() == lines_spec(self.sv()).len(), forall|i: int| 0 <= i < r@.len() ==> (#[trigger] r@[i])@ == lines_spec(self.sv())[i];
     /// `s.lines().map(|l| l.to_string()).filter(|l| !l.is_empty()).collect()`
     fn vx_nonempty_lines(&self) -> (r: Vec<String>)
         ensures r@.len() == nonempty_lines_spec(self.sv()).len(),
@@ -415,6 +422,9 @@ pub trait VxStr {
         ensures r.0.spec_bytes() == self.sb().subrange(0, mid as int), r.1.spec_bytes() == self.sb().subrange(mid as int, self.sb().len() as int);
     fn vx_nth_char(&self, n: usize) -> (r: Option<char>)
         ensures r.is_some() == (n < self.sv().len()), r.is_some() ==> r.unwrap() == self.sv()[n as int];
+    /// `s.char_indices().collect()`: byte offset and value of every character, in order
+    fn vx_char_indices(&self) -> (r: Vec<(usize, char)>)
+        ensures r@.len() == self.sv().len(), forall|k: int| 0 <= k < r@.len() ==> (#[trigger] r@[k]).1 == self.sv()[k] && r@[k].0 as int == boff(self.sv(), k);
     fn vx_last_char(&self) -> (r: Option<char>)
         ensures r.is_some() == (self.sv().len() > 0), r.is_some() ==> r.unwrap() == self.sv().last();
     fn vx_parse_u32(&self) -> (r: Result<u32, core::num::ParseIntError>)
@@ -454,10 +464,12 @@ impl VxStr for str {
     #[verifier::external_body] fn vx_to_uppercase(&self) -> (r: String) { self.to_uppercase() }
     #[verifier::external_body] fn vx_to_lowercase(&self) -> (r: String) { self.to_lowercase() }
     #[verifier::external_body] fn vx_lines<'a>(&'a self) -> (r: Vec<&'a str>) { self.lines().collect() }
+    #[verifier::external_body] fn vx_lines_owned(&self) -> (r: Vec<String>) { self.lines().map(|l| l.to_string()).collect() }
     #[verifier::external_body] fn vx_nonempty_lines(&self) -> (r: Vec<String>) { self.lines().map(|l| l.to_string()).filter(|l| !l.is_empty()).collect() }
     fn vx_split<'a, P: VxPat>(&'a self, p: P) -> (r: Vec<&'a str>) { p.p_split(self) }
     #[verifier::external_body] fn vx_split_at<'a>(&'a self, mid: usize) -> (r: (&'a str, &'a str)) { self.split_at(mid) }
     #[verifier::external_body] fn vx_nth_char(&self, n: usize) -> (r: Option<char>) { self.chars().nth(n) }
+    #[verifier::external_body] fn vx_char_indices(&self) -> (r: Vec<(usize, char)>) { self.char_indices().collect() }
     #[verifier::external_body] fn vx_last_char(&self) -> (r: Option<char>) { self.chars().last() }
     #[verifier::external_body] fn vx_parse_u32(&self) -> (r: Result<u32, core::num::ParseIntError>) { self.parse::<u32>() }
     #[verifier::external_body] fn vx_parse_u8(&self) -> (r: Result<u8, core::num::ParseIntError>) { self.parse::<u8>() }
@@ -500,6 +512,8 @@ pub trait VxToString { spec fn dview(&self) -> Seq<char>; fn vx_string(&self) ->
 impl VxToString for String { open spec fn dview(&self) -> Seq<char> { self@ } #[verifier::external_body] fn vx_string(&self) -> (r: String) { self.clone() } }
 impl VxToString for str { open spec fn dview(&self) -> Seq<char> { self@ } #[verifier::external_body] fn vx_string(&self) -> (r: String) { self.to_string() } }
 impl VxToString for char { open spec fn dview(&self) -> Seq<char> { seq![*self] } #[verifier::external_body] fn vx_string(&self) -> (r: String) { self.to_string() } }
+/// Display of f64 (`{}`): the shortest rendering that reads back as the same value (uninterpreted text)
+impl VxToString for f64 { open spec fn dview(&self) -> Seq<char> { fmt_shortest(*self) } #[verifier::external_body] fn vx_string(&self) -> (r: String) { self.to_string() } }
 /// Display of the integer types (decimal rendering, uninterpreted)
 pub uninterp spec fn int_text(i: int) -> Seq<char>;
 impl VxToString for u32 { open spec fn dview(&self) -> Seq<char> { int_text(*self as int) } #[verifier::external_body] fn vx_string(&self) -> (r: String) { self.to_string() } }
@@ -595,6 +609,12 @@ pub fn f64_le0(x: f64) -> (r: bool) ensures r == f64_le_zero(x) { x <= 0.0 }
 /// `match o { Some("LIT") => .. }` on an Option<&str>
 #[verifier::external_body]
 pub fn opt_str_is(o: Option<&str>, lit: &str) -> (r: bool) ensures r == (o.is_some() && o.unwrap()@ == lit@) { o == Some(lit) }
+/// the bounds check of `&v[lo..hi]` (panics unless lo <= hi <= len)
+pub fn check_slice_range(lo: usize, hi: usize, len: usize) requires lo <= hi <= len {}
+/// `-x` on an f64 (machine floating point is not modelled)
+pub uninterp spec fn f64_neg_spec(x: f64) -> f64;
+#[verifier::external_body]
+pub fn f64_neg(x: f64) -> (r: f64) ensures r == f64_neg_spec(x) { -x }
 /// `String::from(&str)`
 #[verifier::external_body]
 pub fn string_from(s: &str) -> (r: String) ensures r@ == s@ { String::from(s) }
@@ -610,20 +630,32 @@ pub fn f64_in(x: f64, lo: f64, hi: f64) -> (r: bool) ensures r == f64_between(x,
 
 // ---------------------------------------------------------------- f64 (machine floating point is NOT modelled: comparisons are uninterpreted predicates)
 pub uninterp spec fn abs_lt(x: f64, bound: f64) -> bool;
-pub trait VxF64: Sized { spec fn fv(self) -> f64; fn vx_abs_lt(self, bound: f64) -> (r: bool) ensures r == abs_lt(self.fv(), bound); }
+pub uninterp spec fn f64_abs_spec(x: f64) -> f64;
+pub trait VxF64: Sized { spec fn fv(self) -> f64; fn vx_abs_lt(self, bound: f64) -> (r: bool) ensures r == abs_lt(self.fv(), bound); fn vx_abs(self) -> (r: f64) ensures r == f64_abs_spec(self.fv()); }
 impl VxF64 for f64 {
     open spec fn fv(self) -> f64 { self }
     #[verifier::external_body] fn vx_abs_lt(self, bound: f64) -> (r: bool) { self.abs() < bound }
+    #[verifier::external_body] fn vx_abs(self) -> (r: f64) { self.abs() }
 }
 
 // ---------------------------------------------------------------- Vec idioms
 pub trait VxVec<T> {
     spec fn vv(&self) -> Seq<T>;
     fn vx_extend(&mut self, other: Vec<T>) ensures final(self).vv() == old(self).vv() + other@;
+    /// `Vec::remove(i)`: panics when i is out of bounds
+    fn vx_remove(&mut self, i: usize) -> (r: T) requires i < old(self).vv().len() ensures final(self).vv() == old(self).vv().remove(i as int), r == old(self).vv()[i as int];
 }
 impl<T> VxVec<T> for Vec<T> {
     open spec fn vv(&self) -> Seq<T> { self@ }
     #[verifier::external_body] fn vx_extend(&mut self, other: Vec<T>) { self.extend(other) }
+    #[verifier::external_body] fn vx_remove(&mut self, i: usize) -> (r: T) { self.remove(i) }
+}
+/// `char::to_digit(10)`
+pub trait VxChar { fn vx_to_digit10(self) -> (r: Option<u32>); }
+impl VxChar for char {
+    #[verifier::external_body] fn vx_to_digit10(self) -> (r: Option<u32>)
+        ensures r.is_some() == ascii_digit(self), r.is_some() ==> r.unwrap() == dval(self) as u32
+    { self.to_digit(10) }
 }
 
 #[verifier::external_body]
